@@ -521,7 +521,7 @@ impl From<&SameReceiverBuilder> for SameReceiver {
         let sps = waveform::samples_per_symbol(input_rate);
         let (timing_bandwidth_unlocked, timing_bandwidth_locked) = cfg.timing_bandwidth();
         let (power_open, power_close) = cfg.squelch_power();
-        let dc_block = DCBlocker::new((cfg.dc_blocker_length() * sps) as usize);
+        let dc_block = DCBlocker::new(usize::max(1, (cfg.dc_blocker_length() * sps) as usize));
         let agc = Agc::new(
             cfg.agc_bandwidth() * sps / input_rate as f32,
             cfg.agc_gain_limits()[0],
